@@ -600,6 +600,8 @@ AUTH_BODIES = [
     "auth.py:NativePasswordAuthPlugin:create_auth_string",
     "auth.py:AbstractClearPasswordAuthPlugin:auth", "auth.py:NoLoginAuthPlugin:auth", "auth.py:AuthPlugin:start",
     "utils.py::xor", "utils.py::nonce", "packets.py::make_handshake_v10",
+    "connection.py:Connection:authenticate", "connection.py:Connection:connection_phase", "connection.py:Connection:handle_change_user",
+    "packets.py::make_auth_switch_request", "packets.py::parse_handshake_response_41", "packets.py::parse_com_change_user",
 ]
 
 
